@@ -209,6 +209,27 @@ class Check:
                             f"{p.stderr[-2000:]}")
         return p
 
+    # ---------------------------------------------------------------------- TLAPS
+    def tlaps(self, subdir, files, main, key="tlaps_obligations_proved", timeout=900):
+        """Run tlapm on spec/<subdir>/<main> (copied with `files` into the work directory). A proof
+        that does not go through says something about the specification or the prover, never about
+        the code under test: it is recorded in the evidence and logged, never a verdict."""
+        dst = os.path.join(self.work, "tlaps-" + main.replace(".tla", ""))
+        shutil.rmtree(dst, ignore_errors=True)
+        os.makedirs(dst)
+        for f in files:
+            shutil.copy(os.path.join(SPEC, subdir, f), dst)
+        try:
+            p = subprocess.run(["tlapm", "--threads", "6", main], cwd=dst, stdout=subprocess.PIPE,
+                               stderr=subprocess.STDOUT, text=True, timeout=timeout)
+            m = re.search(r"All (\d+) obligations proved", p.stdout)
+            self.cov["conformance"][key] = int(m.group(1)) if m else 0
+            if not m:
+                log(f"note: tlapm did not prove every obligation of {main}: " + p.stdout[-300:])
+        except (OSError, subprocess.TimeoutExpired) as e:
+            log(f"note: tlapm not run ({e})")
+            self.cov["conformance"][key] = None
+
     # ---------------------------------------------------------------------- TLC
     def tlc(self, module, cfg, workers=4, timeout=900, env=None, simulate=None, depth=None,
             deque=False, xmx="6g", coverage=False, tag=None, keep_tags=("CASE",),
